@@ -25,6 +25,7 @@ ap.add_argument("--props")
 ap.add_argument("--tier", default="quick")
 ap.add_argument("--skip-suite", action="store_true")
 ap.add_argument("--seed", default="1")
+ap.add_argument("--repo-diff", help="the same change ported to /repo's current HEAD (when later fixes touched the same lines)")
 a = ap.parse_args()
 wt = a.wt or "/tmp/wt_%s" % a.prop
 seed_dir = os.path.join(wt, "_seed")
@@ -78,7 +79,7 @@ for p in props:
 before = set(glob.glob(os.path.join(HERE, "replays", "*", "*.json")))
 meta["checks"] = {}
 try:
-    if sh(["git", "-C", RUN, "apply", diff]).returncode != 0:
+    if sh(["git", "-C", RUN, "apply", os.path.abspath(a.repo_diff) if a.repo_diff else diff]).returncode != 0:
         sys.exit("diff does not apply to /repo HEAD")
     for p in props:
         e2 = dict(os.environ, VERIF_SEED=a.seed, VERIF_NO_SHRINK="1", VERIF_REPO=RUN)
@@ -104,6 +105,9 @@ finally:
 
 os.makedirs(out_dir, exist_ok=True)
 shutil.copy(diff, os.path.join(out_dir, "patch.diff"))
+if a.repo_diff:
+    shutil.copy(a.repo_diff, os.path.join(out_dir, "patch_ported_to_head.diff"))
+    meta["note"] = "patch.diff is the change as written (against the tree the sub-agent had); patch_ported_to_head.diff is the same change on top of later fixes that touched the same lines"
 shutil.copy(demo, os.path.join(out_dir, "demo.py"))
 notes = os.path.join(seed_dir, "NOTES.md")
 if os.path.exists(notes):
